@@ -123,6 +123,11 @@ func run(c Case, dir string) error {
 			if c.BrokenKind == "missing" {
 				continue
 			}
+			if c.BrokenKind == "dangling" {
+				// a symbolic link whose target does not exist: listed by its directory, but it cannot be read
+				os.Symlink("no-such-target-"+filepath.Base(c.path(i)), filepath.Join(dir, c.path(i)))
+				continue
+			}
 			txt = "{{{ not [ valid"
 		}
 		os.WriteFile(filepath.Join(dir, c.path(i)), []byte(txt), 0o644)
@@ -295,7 +300,7 @@ func genCase(rt *rapid.T) Case {
 	}
 	if nf > 1 && rapid.IntRange(0, 2).Draw(rt, "break") == 0 {
 		c.Broken = rapid.IntRange(1, nf-1).Draw(rt, "broken")
-		c.BrokenKind = rapid.SampledFrom([]string{"missing", "unparsable"}).Draw(rt, "broken-kind")
+		c.BrokenKind = rapid.SampledFrom([]string{"missing", "unparsable", "dangling"}).Draw(rt, "broken-kind")
 	}
 	return c
 }
@@ -339,7 +344,7 @@ func TestExhaustive(t *testing.T) {
 			variants = append(variants, base)
 			if drv.Thorough() || mask%7 == 0 {
 				for b := 1; b < n; b++ {
-					for _, kind := range []string{"missing", "unparsable"} {
+					for _, kind := range []string{"missing", "unparsable", "dangling"} {
 						v := base
 						v.Broken, v.BrokenKind = b, kind
 						variants = append(variants, v)
